@@ -33,6 +33,8 @@ func init() {
 			ruleC13F12(r)
 			r.borrow("C14", func() { ruleC14B6(r) }) // concurrent datagram writers never share a sequence number (their segments would be merged into one message)
 			rulePoolNoEscape(r, "F13")
+			ruleBuffersStartEmpty(r, "F14")
+			ruleDictLongEnough(r, "F15")
 		},
 	})
 }
@@ -843,7 +845,7 @@ func rulePoolNoEscape(r *Run, id string) {
 						return
 					}
 					o := calleeObj(&c.Call)
-					if o == nil || o.Name() != "Bytes" || len(c.Call.Args) == 0 || canonVal(c.Call.Args[0]) != target {
+					if o == nil || o.Name() != "Bytes" || len(c.Call.Args) == 0 || objectRoot(c.Call.Args[0]) != target {
 						return
 					}
 					var follow func(v ssa.Value, depth int)
@@ -886,4 +888,139 @@ func rulePoolNoEscape(r *Run, id string) {
 		})
 	}
 	r.Stat("pool_puts", n)
+}
+
+// objectRoot: the object an address belongs to — v itself, or the object whose (nested) field v addresses
+// (enc.buf -> enc), in canonical form.
+func objectRoot(v ssa.Value) ssa.Value {
+	v = canonVal(v)
+	for i := 0; i < 4; i++ {
+		fa, ok := v.(*ssa.FieldAddr)
+		if !ok {
+			break
+		}
+		v = canonVal(fa.X)
+	}
+	return v
+}
+
+// ruleBuffersStartEmpty: bytes.NewBuffer(b) takes b as the buffer's initial CONTENT. make([]byte, n) handed to it is n
+// zero bytes of content, not n bytes of room (that is make([]byte, 0, n)): whatever reads the buffer later — a
+// compression window, a frame under construction — starts with zeros nobody wrote.
+func ruleBuffersStartEmpty(r *Run, id string) {
+	r.Begin(id, "buffers start empty: no bytes.NewBuffer / bytes.NewBufferString in the transport and encoding packages is given a slice freshly made with a non-zero length", 0)
+	p := r.P
+	n := 0
+	for _, fn := range p.Funcs {
+		pk := fnPkgPath(fn)
+		if (!strings.HasPrefix(pk, modPath+"/transport") && !strings.HasPrefix(pk, modPath+"/encoding") && !strings.HasPrefix(pk, modPath+"/internal")) || fn.Blocks == nil {
+			continue
+		}
+		k := 0
+		for _, c := range findCalls(fn, false, "bytes.NewBuffer") {
+			n++
+			k++
+			arg := canonVal(instrCall(c).Args[0])
+			bad := false
+			if mk, isMk := arg.(*ssa.MakeSlice); isMk {
+				if v, isK := constInt(mk.Len); !isK || v != 0 {
+					bad = true
+				}
+			}
+			if sl, isSl := arg.(*ssa.Slice); isSl {
+				// make([]byte, N) with constant N lowers to new [N]byte sliced [:]; [:0] is fine
+				if a, isA := sl.X.(*ssa.Alloc); isA && a.Comment == "makeslice" {
+					if sl.High == nil {
+						if at, isArr := deref(a.Type()).Underlying().(*types.Array); isArr && at.Len() > 0 {
+							bad = true
+						}
+					} else if v, isK := constInt(sl.High); !isK || v != 0 {
+						bad = true
+					}
+				}
+			}
+			r.Check(fmt.Sprintf("%s NewBuffer#%d", fnName(fn), k), !bad, posOf(p, c), fnName(fn), "the buffer is created with a freshly made slice of non-zero length as its content: it starts out holding that many zero bytes (make([]byte, 0, n) reserves room without content)")
+		}
+	}
+	r.Stat("newbuffer_calls", n)
+	if n == 0 {
+		r.Check("NewBuffer calls", true, "", "", "none")
+	}
+}
+
+// ruleDictLongEnough: compress/flate.NewWriterDict (Go 1.23-1.26) leaves the block start at 0 after priming the window:
+// when the first block of the message is emitted as a STORED block (incompressible input, and a dictionary so short —
+// 32 bytes and less in every trial — that "dictionary + input, stored" is still the cheapest coding) the dictionary
+// bytes are written out as message content, and the peer reads dictionary+message. A call of NewWriterDict is therefore
+// in order only where the dictionary is known to be long: dominated by the accepting edge of a test of its length (or
+// of the window size it is cut to) against a constant of at least 64.
+func ruleDictLongEnough(r *Run, id string) {
+	r.Begin(id, "deflate dictionaries are long enough: every call of compress/flate.NewWriterDict in the module is dominated by a test that the dictionary (or the window it is cut to) has at least 64 bytes — shorter ones are emitted as message content when the first block is stored", 0)
+	p := r.P
+	n := 0
+	for _, fn := range p.Funcs {
+		if !strings.HasPrefix(fnPkgPath(fn), modPath+"/") || fn.Blocks == nil {
+			continue
+		}
+		k := 0
+		for _, c := range findCalls(fn, false, "compress/flate.NewWriterDict") {
+			n++
+			k++
+			ok := false
+			allInstrs(fn, func(ins ssa.Instruction) {
+				ifs, isIf := ins.(*ssa.If)
+				if !isIf {
+					return
+				}
+				bo, isBo := ifs.Cond.(*ssa.BinOp)
+				if !isBo {
+					return
+				}
+				x, y, op := bo.X, bo.Y, bo.Op
+				if _, isK := x.(*ssa.Const); isK {
+					x, y = y, x
+					switch op {
+					case token.LSS:
+						op = token.GTR
+					case token.GTR:
+						op = token.LSS
+					case token.LEQ:
+						op = token.GEQ
+					case token.GEQ:
+						op = token.LEQ
+					}
+				}
+				kv, isK := constInt(y)
+				if !isK || kv < 63 {
+					return
+				}
+				isLen := false
+				if cc, isC := x.(*ssa.Call); isC {
+					if b, isB := cc.Call.Value.(*ssa.Builtin); isB && b.Name() == "len" {
+						isLen = true
+					} else if o := calleeObj(&cc.Call); o != nil && (o.Name() == "Len" || o.Name() == "WindowSize") {
+						isLen = true
+					}
+				}
+				if !isLen {
+					return
+				}
+				var long *ssa.BasicBlock
+				switch {
+				case op == token.GEQ && kv >= 64, op == token.GTR && kv >= 63:
+					long = ifs.Block().Succs[0]
+				case op == token.LSS && kv >= 64, op == token.LEQ && kv >= 63:
+					long = ifs.Block().Succs[1]
+				}
+				if long != nil && edgeDominates(ifs.Block(), long, c.Block()) {
+					ok = true
+				}
+			})
+			r.Check(fmt.Sprintf("%s NewWriterDict#%d", fnName(fn), k), ok, posOf(p, c), fnName(fn), "no test of the dictionary's length dominates this call: with a window of 32 bytes or less (cwinbits <= 5, which Validate accepts) an incompressible message written after the window has content is read by the peer with the window's bytes in front of it")
+		}
+	}
+	r.Stat("newwriterdict_calls", n)
+	if n == 0 {
+		r.Check("NewWriterDict calls", true, "", "", "none")
+	}
 }
